@@ -66,7 +66,7 @@ static void run_case(vf::Ctx& ctx, const Fac& fac, bool hostile)
                     es->init(v.data());
                 }
             }
-            catch (const std::exception&) { word += "!"; continue; }
+            catch (const std::exception&) { word += "!"; inited = false; continue; }   // (an operator failing inside init(): counters are judged again after the next complete init())
             inited = true;
             if (!computed) check_not_computed("after init");
             // init() itself applies the operator: the counter must agree right away
@@ -131,7 +131,8 @@ static void run_case(vf::Ctx& ctx, const Fac& fac, bool hostile)
                     if (desc ? (a < b - slack) : (a > b + slack)) { ctx.violation(key("not-in-sorting-order"), info().kv("position", i).kv("key_i", a).kv("key_next", b).str()); break; }
                 }
             // 5. pairing: no OTHER returned value fits column i ten times better than value i does
-            if (finite && k >= 2 && all_finite(U))
+            // (clean domain only: for defective / ill-conditioned hostile input the returned values are all perturbations of one eigenvalue and 'which value fits' is meaningless)
+            if (!hostile && finite && k >= 2 && all_finite(U))
             {
                 const MatCLD X = U.template cast<CLD>();
                 const MatCLD AX = AL * X;
@@ -144,7 +145,9 @@ static void run_case(vf::Ctx& ctx, const Fac& fac, bool hostile)
                     {
                         if (j == i) continue;
                         const LD rij = fnorm(VecCLD(AX.col(i) - CLD(ev[j]) * BX.col(i)));
-                        if (rij < 0.1L * rii && rii > 1e4L * d.n * u * nA)
+                        // (only when value i itself does not fit its column to the requested accuracy: two returned values that approximate the same eigenvalue to
+                        //  different accuracy both 'belong' to the column)
+                        if (rij < 0.1L * rii && rii > 1e4L * d.n * u * nA && rii > 100 * (LD) la.tol * nA)
                         {
                             ctx.violation(key("value-does-not-belong-to-its-column"), info().kv("column", i).kv("own_value_residual", rii).kv("other_value", j).kv("other_value_residual", rij).str());
                             i = k; break;
